@@ -370,6 +370,35 @@ fn run(ctx: &mut Ctx) {
         }
     }
 
+    // ---- 5e. every expression form of a constant parameter (API-built, incl. unary plus) under each modifier and in
+    // programs; non-constant parameters rejected at any depth of the stack
+    {
+        let mut rng = ctx.rng(22);
+        let plus07 = qvh::expr::prefix(quil_rs::expression::PrefixOperator::Plus, real(0.7));
+        unitary_case(ctx, &raw("RZ", vec![plus07.clone()], &[0], vec![Dagger]), 1);
+        unitary_case(ctx, &raw("RX", vec![real(0.3), plus07.clone()], &[1, 0], vec![Forked]), 2);
+        for (gi, (name, k)) in PARAM_GATES.into_iter().enumerate() {
+            let mut forms: Vec<Expression> = constant_forms(if gi % 2 == 0 { 0.7 } else { -1.3 });
+            forms.extend(pi_forms());
+            for _ in 0..(if quick { 4 } else { 60 }) {
+                forms.push(random_constant_expr(&mut rng));
+            }
+            forms.extend(nonconstant_forms());
+            for (fi, e) in forms.into_iter().enumerate() {
+                let n = k as u64 + 1;
+                let qs = random_placement(&mut rng, k + 1, n);
+                let base = Gate { name: name.to_string(), parameters: vec![e.clone()], qubits: fixed(&qs[1..]), modifiers: vec![] };
+                let g = match fi % 3 {
+                    0 => base.clone().controlled(Qubit::Fixed(qs[0])),
+                    1 => base.clone().forked(Qubit::Fixed(qs[0]), vec![real(0.4)]).unwrap(),
+                    _ => Gate { name: name.to_string(), parameters: vec![real(0.4), e.clone()], qubits: fixed(&qs), modifiers: vec![Forked, Dagger] },
+                };
+                unitary_case(ctx, &g, n);
+                prog_case(ctx, vec![Instruction::Gate(base.clone().dagger()), Instruction::Gate(base)], n);
+            }
+        }
+    }
+
     // ---- 5d. beyond 5 qubits (the theorems are for all n): a few modified gates on 6 qubits
     {
         let mut rng = ctx.rng(21);
